@@ -15,19 +15,23 @@ def sh(cmd, cwd=None, timeout=3600, env=None):
     return p.returncode, p.stdout
 
 
-def do_import(pid):
-    src = f"/tmp/mut/{pid}-out"
+def do_import(src_id):
+    """src_id: C03 (first round, kept as m1..m3) or C03b (second round, kept as m4..m6)"""
+    src = f"/tmp/mut/{src_id}-out"
+    pid = src_id[:3]
+    shift = 3 * (ord(src_id[3]) - ord("a")) if len(src_id) > 3 else 0
     conf = json.load(open(f"{src}/confirm.json"))
-    for k, r in conf["mutants"].items():
+    for k0, r in conf["mutants"].items():
+        k = "m%d" % (int(k0[1:]) + shift)
         if not r.get("confirmed"):
             print(pid, k, "not confirmed, skipped")
             continue
         dst = os.path.join(SEEDED, pid, k)
         os.makedirs(dst, exist_ok=True)
-        shutil.copy(f"{src}/{k}.diff", f"{dst}/patch.diff")
-        if os.path.exists(f"{src}/{k}_demo.rs"):
-            shutil.copy(f"{src}/{k}_demo.rs", f"{dst}/demo.rs")
-        desc = open(f"{src}/{k}.md").read() if os.path.exists(f"{src}/{k}.md") else ""
+        shutil.copy(f"{src}/{k0}.diff", f"{dst}/patch.diff")
+        if os.path.exists(f"{src}/{k0}_demo.rs"):
+            shutil.copy(f"{src}/{k0}_demo.rs", f"{dst}/demo.rs")
+        desc = open(f"{src}/{k0}.md").read() if os.path.exists(f"{src}/{k0}.md") else ""
         open(f"{dst}/description.md", "w").write(desc)
         files = sorted(set(re.findall(r"^\+\+\+ b/(\S+)", open(f"{dst}/patch.diff").read(), re.M)))
         meta = {
@@ -50,11 +54,16 @@ def repo_clean():
     return out.strip() == ""
 
 
-def do_run(pid):
+def do_run(spec):
+    """spec: C03 (all kept changes of C03) or C03:m4,m5 (only these)"""
+    pid, _, only = spec.partition(":")
+    only = only.split(",") if only else None
     base = os.path.join(SEEDED, pid)
     if not os.path.isdir(base):
         return
     for k in sorted(os.listdir(base)):
+        if only and k not in only:
+            continue
         d = os.path.join(base, k)
         if not os.path.exists(f"{d}/patch.diff"):
             continue
